@@ -71,10 +71,11 @@ class Ctx:
     def state_digest(self):
         sim = self.sim
         nw = sim.network
-        q = sorted(((ts, e.event_type, getattr(getattr(e, "ev", None), "session_id", None)) for ts, e in sim.event_queue.queue), key=repr)
+        q = sorted(((int(ts), e.event_type, getattr(getattr(e, "ev", None), "session_id", None)) for ts, e in sim.event_queue.queue), key=repr)
         st_ = sim.start
-        parts = [(st_.isoformat(), None if st_.utcoffset() is None else st_.utcoffset().total_seconds()), sim.period, sim.max_recompute,
-                 sim.iteration, sim.pilot_signals.shape, sim.pilot_signals.tobytes(), sim.charging_rates.tobytes(),
+        parts = [(st_.isoformat(), None if st_.utcoffset() is None else st_.utcoffset().total_seconds()), float(sim.period),
+                 None if sim.max_recompute is None else int(sim.max_recompute),      # (values, not their numeric types: numpy scalars come back as Python numbers)
+                 int(sim.iteration), sim.pilot_signals.shape, sim.pilot_signals.tobytes(), sim.charging_rates.tobytes(),
                  float(sim.peak), q, len(sim.event_history), sorted(sim.ev_history.keys(), key=repr),
                  None if sim.schedule_history is None else sorted(sim.schedule_history.keys(), key=repr),
                  [self.station_state(s) for s in nw.station_ids],
@@ -246,6 +247,11 @@ def resume_json(ctx, party, mode, scratch):
         path = os.path.join(scratch, "sim_%d.json" % len(ctx.events))
         sim.to_json(path)
         sim2 = sut.Simulator.from_json(path)
+    elif mode == "json_pathlike":
+        import pathlib
+        path = pathlib.Path(scratch) / ("sim_%d.json" % len(ctx.events))     # an os.PathLike, not a str
+        sim.to_json(path)
+        sim2 = sut.Simulator.from_json(path)
     else:
         raise HarnessError(mode)
     ctx.sim = sim2
@@ -337,6 +343,17 @@ def run_world(sc, observe=0, snapshot=True, setup=None, mutate_constraints=True,
                 sim.update_scheduler(party)
                 ctx.sim = sim
                 ctx.fired("json_clone")
+            if sc["sim"].get("deepcopy_before_run"):
+                # 'equal inputs': the judged simulation is a copy.deepcopy of the freshly built one (scheduler and all); the
+                # original is never run
+                import copy as _copy
+                sim_c = _copy.deepcopy(ctx.sim)
+                party_c = sim_c.scheduler
+                party_c.ctx = ctx                    # the copy reports to this run's context
+                party = party_c
+                tr.party = party
+                ctx.sim = sim_c
+                ctx.fired("deepcopy_before_run")
             if setup is not None:
                 setup(ctx, party)
             guard = 0
